@@ -13,8 +13,14 @@ resolution of the two kinds of nondeterminism the model has:
   A = cancel, r gives up, release;  B = cancel, release (may grant r), r takes the `ctx.Done()` branch;
   C = release (may grant r), r returns the unlock function, cancel.
 
+`handover r b first` is the same pair of operations with the order at the locker's mutex FORCED by the harness
+(it holds the mutex until both the release and r's cancellation path are parked on it, in the order it wants):
+one resolution only — `first = release` is order B (the choice letter tells whether the release had granted r:
+`H` = r ran its cancellation path having been granted and gave the accounts back, `h` = r was still queued),
+`first = cancel` is order A (`K`).
+
 input : {"variant":"fixed"|"orig", "ops":[{"op":"arrive","r":n,"read":[..],"write":[..],"hold":[{"op":"release","r":b}|{"op":"cancel","r":n}]}
-         | {"op":"release","r":n} | {"op":"cancel","r":n} | {"op":"race","r":n,"b":m} | {"op":"drain"}]}
+         | {"op":"release","r":n} | {"op":"cancel","r":n} | {"op":"race","r":n,"b":m} | {"op":"handover","r":n,"b":m,"first":"release"|"cancel"} | {"op":"drain"}]}
 output: {"paths":[{"choices":["gcA…",…],"steps":[{"res":…, "nd":…, "ret":{"<id>":"ok"|"err"}, "sub":[{"rel":id,"ret":{…}}…] (drain only),
           "waiting":[ids], "q":[[read,write]…], "rl":{acct:count}, "wl":[acct…]}]}]} -/
 namespace Driver.LockD
@@ -92,6 +98,7 @@ inductive HOp
   | release (id : Nat)
   | cancel (id : Nat)
   | race (r b : Nat)
+  | handover (r b : Nat) (releaseFirst : Bool)
   | drain
 deriving Inhabited
 
@@ -140,12 +147,28 @@ def execOp (fixed : Bool) (s : State) : HOp → List (String × String × Acc)
         let a1 := settle' fixed .grant (doStep fixed a0 (.release b)).1
         settle' fixed .grant (doStep fixed a1 (.cancel r)).1
       [("A", "race", pA), ("B", "race", pB), ("C", "race", pC)]
+  | .handover r b releaseFirst =>
+    let a0 : Acc := { s := s, ret := [] }
+    if !(isQueued s r && isHolder s b) then
+      let a1 := settle' fixed .grant (doStep fixed a0 (.cancel r)).1
+      let (a2, out) := doStep fixed a1 (.release b)
+      [("", "norace-" ++ outName out, settle' fixed .grant a2)]
+    else if releaseFirst then
+      -- r has left its `select` through `ctx.Done()` and waits for the mutex; the release gets it first
+      let a1 := (doStep fixed a0 (.cancel r)).1
+      let a2 := (doStep fixed a1 (.release b)).1
+      [(if bothReady a2.s r then "H" else "h", "handover", settle' fixed .ctx a2)]
+    else
+      let a1 := settle' fixed .grant (doStep fixed a0 (.cancel r)).1
+      [("K", "handover", settle' fixed .grant (doStep fixed a1 (.release b)).1)]
   | .drain =>
     let a0 : Acc := { s := s, ret := [] }
     [("", "drain", drainLoop fixed (weight s + 1) a0)]
 
 def ndOf (c : String) : String :=
-  if c == "g" || c == "c" then "select" else if c == "" then "" else "race"
+  if c == "g" || c == "c" then "select" else if c == "" then ""
+  else if c == "H" then "handover-granted" else if c == "h" then "handover-queued" else if c == "K" then "handover-cancel-first"
+  else "race"
 
 def paths (fixed : Bool) : State → List HOp → List (String × List Json)
   | _, [] => [("", [])]
@@ -175,6 +198,7 @@ def parseOp (j : Json) : Except String HOp := do
   | "release" => pure (.release (← getNat j "r"))
   | "cancel" => pure (.cancel (← getNat j "r"))
   | "race" => pure (.race (← getNat j "r") (← getNat j "b"))
+  | "handover" => pure (.handover (← getNat j "r") (← getNat j "b") ((getStr j "first").toOption.getD "release" != "cancel"))
   | "drain" => pure .drain
   | _ => throw s!"unknown op {op}"
 
